@@ -84,14 +84,15 @@ CHECKS = {
         technique='TLA+ spec ZStorage action properties (AbortRestores, WrongTxnNoEffect, NextCanBegin) model-checked by '
                   'TLC; TLC behaviours with aborts at every phase replayed, query table and data-file bytes compared',
         text='TLC checks that an abort or any refused call leaves history and every answer unchanged and frees the commit '
-             'lock; conformance: behaviours with aborts after begin / stores / refused calls / vote, over-long metadata, '
-             'foreign-transaction calls are replayed: query table equal to the table before begin, data file byte-identical, '
-             'following transactions commit as specified.',
-        note='low-level write failures are enumerated by the file-layer part (added with ZFile); blobs in C13',
+             'lock; conformance: behaviours with aborts after begin / stores / refused calls / vote, over-long metadata, stores '
+             'refused by the file-size quota, every low-level write of the vote failing in turn (error / short write), a reader '
+             'racing with the vote, foreign-transaction calls are replayed: query table equal to the table before begin, data '
+             'file byte-identical, following transactions commit as specified; a call that never returns is reported (watchdogs).',
+        note='persistent I/O failure (every later operation fails too) is a labelled class of the thorough tier (F13); blobs in C13',
         design='6/C05'),
     'C06': dict(
         technique='TLA+ transcription of FileStorage._transactionalUndoRecord in ZStorage, UndoSemantics checked by TLC; '
-                  'undo-heavy TLC behaviours replayed on FileStorage',
+                  'undo-heavy TLC behaviours and directed undo / pack / reopen scripts replayed on FileStorage',
         text='TLC checks UndoSemantics (objects written by the undone transaction read as just before it, or carry the '
              'class merge; everything else untouched; failure changes nothing) on the specification; conformance: undo() '
              'on the real FileStorage must return the same oids or raise UndoError exactly as specified and all queries '
